@@ -209,6 +209,7 @@ def gen_plane_seq(rng, length: int, wild: bool):
     ops = []
     live: List[Box] = []
     dead: List[Box] = []
+    asked: List[Any] = []   # (object the query was built around or None, query box)
     nid = 0
     for _ in range(length):
         r = rng.random()
@@ -233,6 +234,11 @@ def gen_plane_seq(rng, length: int, wild: bool):
             live.remove(b)
             dead.append(b)
             ops.append(("remove", b))
+            # state carried across calls: repeat, right after the removal, a query that was
+            # already asked (preferably one built around the removed object)
+            prev = [q for (o, q) in asked if o is b] or [q for (_, q) in asked[-3:]]
+            if prev and rng.random() < 0.6:
+                ops.append(("find", rng.choice(prev)))
         elif r < 0.92:
             if live and rng.random() < 0.5:
                 o = rng.choice(live)   # query around an existing object
@@ -240,8 +246,12 @@ def gen_plane_seq(rng, length: int, wild: bool):
                 q = (o.x0 - dx, o.y0 - dy, o.x1 + dx + F(1, 16), o.y1 + dy + F(1, 16))
                 if rng.random() < 0.3:
                     q = (o.x1, o.y0, o.x1 + 5, o.y1 + 1)   # touching only: must not be returned
+                asked.append((o, q))
+            elif asked and rng.random() < 0.25:
+                q = rng.choice(asked)[1]          # the very same query again
             else:
                 q = gen_box(rng, pb, gs)
+                asked.append((None, q))
             ops.append(("find", q))
         else:
             ops.append(("iter",))
